@@ -50,6 +50,7 @@ type c32SendMon struct {
 	resetSize int64
 	resetCode uint64
 	nReset    int
+	idx       int // packets of q.sent already looked at
 }
 
 func c32OpClass(op string) string {
@@ -60,8 +61,11 @@ func c32OpClass(op string) string {
 	return op
 }
 
-func (m *c32SendMon) observe(ps []qpeerPacket, after string) {
+func (m *c32SendMon) observe(q *qpeerConn, after string) {
 	w := m.w
+	q.drain()
+	ps := q.sent[m.idx:]
+	m.idx = len(q.sent)
 	for _, p := range ps {
 		for _, f := range p.frames {
 			switch f := f.(type) {
@@ -130,11 +134,10 @@ func c32ExecSend(c *vx.Ctx, w *vx.W, cs c32Case) {
 		}
 		s.SetReadContext(canceledContext())
 		s.SetWriteContext(canceledContext())
-		m := &c32SendMon{w: w, cs: cs, id: s.id}
-		m.observe(q.drain(), "setup")
+		m := &c32SendMon{w: w, cs: cs, id: s.id, idx: len(q.sent)}
+		m.observe(q, "setup")
 		ran := 0
 		for _, op := range cs.Ops {
-			var pre []qpeerPacket
 			switch {
 			case strings.HasPrefix(op, "w"):
 				n, _ := strconv.Atoi(op[1:])
@@ -158,7 +161,7 @@ func c32ExecSend(c *vx.Ctx, w *vx.W, cs c32Case) {
 			case op == "ack":
 				q.ackAll()
 			case op == "loss":
-				pre = q.loseOutstanding()
+				q.loseOutstanding()
 			case op == "pto":
 				if !q.advanceToPTO() {
 					w.Outcome("pto:not-armed")
@@ -167,11 +170,7 @@ func c32ExecSend(c *vx.Ctx, w *vx.W, cs c32Case) {
 			default:
 				t.Fatalf("unknown op %q", op)
 			}
-			m.observe(pre, op)
-			if w.Failed() {
-				return
-			}
-			m.observe(q.drain(), op)
+			m.observe(q, op)
 			if w.Failed() {
 				return
 			}
@@ -232,9 +231,9 @@ func (g c32SendGen) Enabled(op string) bool {
 	case op == "ack":
 		return g.inflight
 	case op == "loss":
-		return g.inflight
+		return g.inflight || g.last != "loss"
 	case op == "pto":
-		return g.inflight && g.last != "pto"
+		return g.inflight || g.last != "pto"
 	}
 	return true
 }
